@@ -297,6 +297,7 @@ class SweepingPropose(_ContinuationReplay, _Step):
 
   def inputs(self, b):
     self._last = b.choice('last_kind', [None, absobj.ref(geno.DNA, z3.Int('last'))])
+    self._next = None    # set when the function asks the spec for the successor
     spec_ = SObj(geno.DNASpec, {}, name='spec')
     return dict(self=self.gen(b, geno.Sweeping, _last_proposed_dna=self._last, _dna_spec=spec_)), {}
 
@@ -313,7 +314,7 @@ class SweepingPropose(_ContinuationReplay, _Step):
     policy.handlers[('identical',)] = absobj.identical_handler
 
   def ensures_last_is_the_proposal(self, self_, result):
-    return result is self._next and self_._last_proposed_dna is result
+    return self._next is not None and result is self._next and self_._last_proposed_dna is result
 
   def trace_successor_of_last(self, events, outcome, interp, env):
     calls = [e for e in events if e.kind == 'next_dna']
